@@ -22,6 +22,7 @@ import (
 )
 
 type Clause struct {
+	NoAssume bool // `claims`: checked at the function's returns like an ensures, but never assumed at call sites
 	Src  string
 	E    *SExpr
 	Line int
@@ -240,8 +241,9 @@ func (e *Env) loadContractFile(path string) error {
 					lem.Requires = append(lem.Requires, cl)
 					lem.Steps = append(lem.Steps, LemmaStep{Kind: "requires", C: cl})
 				}
-			case "ensures":
+			case "ensures", "claims":
 				cl := mkClause(rest)
+				cl.NoAssume = kw == "claims"
 				all = append(all, cl)
 				last = cl
 				if cur != nil {
